@@ -68,7 +68,9 @@ theorem itemsAre_replicate (s : Scalar) (sz : Nat) : ∀ (n : Nat) (pre post : L
     have e : pre ++ [(⟨s, off, sz⟩ : Item)] ++ replicateItems s sz n (off + sz) ++ post =
         pre ++ (⟨s, off, sz⟩ :: replicateItems s sz n (off + sz)) ++ post := by simp
     rw [e] at ih
-    simp [ih]
+    have ih' : itemsAre (pre ++ (⟨s, off, sz⟩ : Item) :: (replicateItems s sz n (off + sz) ++ post)) s sz
+        (pre.length + 1) n (off + sz) = true := by simpa using ih
+    simp [ih']
 
 /-! ### names -/
 
@@ -217,7 +219,7 @@ theorem slotRange_member (cfg : Cfg) (ty : Ty) (s : Scalar) (cnt : Option Nat) (
           simp
         rw [hget]
         simp only [itemsAre_replicate, if_true]
-        refine ⟨A, A + esz * (m + 1), rfl, by omega, fun _ => ⟨rfl, by rw [Nat.mul_comm]⟩⟩
+        refine ⟨A, A + esz * (m + 1), rfl, by rw [Nat.mul_comm]; omega, fun _ => ⟨rfl, by rw [Nat.mul_comm]⟩⟩
   · simp only [hp, Bool.false_eq_true, if_false, slotSrc, hb, if_true]
     cases cnt with
     | none =>
